@@ -138,7 +138,10 @@ func runDList(c dlistCase, r *pb.Rec) error {
 			for e := sl[i].Back(); e != nil; e = e.Prev() {
 				bwS = append(bwS, e.Value.(int))
 			}
-			dl[i].All()(func(v int) bool { all = append(all, v); return true })
+			seq := dl[i].All()
+			first := 0
+			seq(func(int) bool { first++; return first < 2 }) // interrupted pass over the same sequence value
+			seq(func(v int) bool { all = append(all, v); return true })
 			if fmt.Sprint(fw) != fmt.Sprint(fwS) || fmt.Sprint(bw) != fmt.Sprint(bwS) || fmt.Sprint(all) != fmt.Sprint(fwS) {
 				return fmt.Errorf("%s: list %d front-to-back %v back-to-front %v All %v; container/list %v / %v", where, i, fw, bw, all, fwS, bwS)
 			}
@@ -496,7 +499,10 @@ func runSList(c slistCase, r *pb.Rec) error {
 				return fmt.Errorf("%s: traversal does not terminate (model %v)", where, model)
 			}
 		}
-		l.All()(func(v int) bool { all = append(all, v); return true })
+		seq := l.All()
+		first := 0
+		seq(func(int) bool { first++; return first < 2 })
+		seq(func(v int) bool { all = append(all, v); return true })
 		if fmt.Sprint(tr) != fmt.Sprint(model) || fmt.Sprint(all) != fmt.Sprint(model) {
 			return fmt.Errorf("%s: traversal %v, All %v, model %v", where, tr, all, model)
 		}
